@@ -308,6 +308,12 @@ def _parents(node):
         p = getattr(p, "_parent", None)
 
 
+# the retry loop of lock() as it stands in the pinned tree (the method-object variants below replace it as a whole)
+_LOCK_LOOP = "        clean = True\n        while True:\n            try:\n                symlink(str(os.getpid()), self.name)\n            except OSError as e:\n                if _windows and e.errno in (errno.EACCES, errno.EIO):\n                    # The lock is in the middle of being deleted because we're\n                    # on Windows where lock removal isn't atomic.  Give up, we\n                    # don't know how long this is going to take.\n                    return False\n                if e.errno == errno.EEXIST:\n                    try:\n                        pid = readlink(self.name)\n                    except OSError as e:\n                        if e.errno == errno.ENOENT:\n                            # The lock has vanished, try to claim it in the\n                            # next iteration through the loop.\n                            continue\n                        elif _windows and e.errno == errno.EACCES:\n                            # The lock is in the middle of being\n                            # deleted because we're on Windows where\n                            # lock removal isn't atomic.  Give up, we\n                            # don't know how long this is going to\n                            # take.\n                            return False\n                        raise\n                    try:\n                        if kill is not None:\n                            kill(int(pid), 0)\n                    except OSError as e:\n                        if e.errno == errno.ESRCH:\n                            # The owner has vanished, try to claim it in the\n                            # next iteration through the loop.\n                            try:\n                                rmlink(self.name)\n                            except OSError as e:\n                                if e.errno == errno.ENOENT:\n                                    # Another process cleaned up the lock.\n                                    # Race them to acquire it in the next\n                                    # iteration through the loop.\n                                    continue\n                                raise\n                            clean = False\n                            continue\n                        raise\n                    return False\n                raise\n            self.locked = True\n            self.clean = clean\n            return True\n"
+_LOCK_BY_OBJECT = '        attempt = _Try(self)\n        while attempt.result is None:\n            attempt.once()\n        if attempt.result:\n            self.locked = True\n            self.clean = attempt.clean\n        return attempt.result\n'
+_TRY_CLASS = 'class _Try:\n    def __init__(self, lock):\n        self.lock = lock\n        self.result = None\n        self.clean = True\n\n    def once(self):\n        try:\n            symlink(str(os.getpid()), self.lock.name)\n        except OSError as e:\n            if _windows and e.errno in (errno.EACCES, errno.EIO):\n                self.result = False\n            elif e.errno == errno.EEXIST:\n                self._stale()\n            else:\n                raise\n        else:\n            self.result = True\n\n    def _stale(self):\n        try:\n            pid = readlink(self.lock.name)\n        except OSError as e:\n            if e.errno == errno.ENOENT:\n                return\n            if _windows and e.errno == errno.EACCES:\n                self.result = False\n                return\n            raise\n        try:\n            if kill is not None:\n                kill(int(pid), 0)\n        except OSError as e:\n            if e.errno != errno.ESRCH:\n                raise\n            try:\n                rmlink(self.lock.name)\n            except OSError as e:\n                if e.errno == errno.ENOENT:\n                    return\n                raise\n            self.clean = False%s\n            return\n        self.result = False\n\n\nclass FilesystemLock:\n'
+
+
 MUTANTS = [
     Mutant("claim-vanished-lock-directly", LF,
            "                            # The lock has vanished, try to claim it in the\n                            # next iteration through the loop.\n                            continue\n                        elif _windows",
@@ -328,6 +334,11 @@ MUTANTS = [
     Mutant("probe-keeps-lock", LF, "        if result:\n            l.unlock()\n", "        if not result:\n            l.unlock()\n", expect_rule="probe/releases-what-it-acquired"),
     Mutant("windows-swallows-rename-failure", LF, "            os.remove(newvalname)\n            os.rmdir(newlinkname)\n            raise\n", "            os.remove(newvalname)\n            os.rmdir(newlinkname)\n",
            expect_rule="windows/create-failure-propagates"),
+    # ---- round-3 shape: the retry loop as a private method object (state in attributes, one attempt per call, outcome None / True / False)
+    Mutant("method-object-claims-after-removing-the-stale-link", LF, _LOCK_LOOP, _LOCK_BY_OBJECT, expect_rule="stale/retry-create-after-break",
+           more=[(LF, "class FilesystemLock:\n", _TRY_CLASS % "\n            self.result = True")]),
+    Mutant("method-object-outcome-ignored-when-recording-locked", LF, _LOCK_LOOP, _LOCK_BY_OBJECT.replace("        if attempt.result:\n", "        if attempt.result is not None:\n"),
+           expect_rule="acquire/only-through-atomic-create", more=[(LF, "class FilesystemLock:\n", _TRY_CLASS % "")]),
 ]
 SILENT = [
     Silent("errno-test-reversed", LF, "                        if e.errno == errno.ESRCH:", "                        if errno.ESRCH == e.errno:"),
@@ -348,4 +359,5 @@ SILENT = [
            "                            outcome = self._breakStale()\n                            if outcome is _REMOVED:\n                                clean = False\n                            continue\n",
            more=[(LF, "    def unlock(self):", "    def _breakStale(self):\n        try:\n            rmlink(self.name)\n        except OSError as e:\n            if e.errno == errno.ENOENT:\n                return _GONE\n            raise\n        return _REMOVED\n\n    def unlock(self):"),
                  (LF, "class FilesystemLock:\n", "_GONE = object()\n_REMOVED = object()\n\n\nclass FilesystemLock:\n")]),
+    Silent("retry-loop-as-a-private-method-object", LF, _LOCK_LOOP, _LOCK_BY_OBJECT, more=[(LF, "class FilesystemLock:\n", _TRY_CLASS % "")]),
 ]
